@@ -206,7 +206,7 @@ def make_case_call(rng):
     else:
         call = gen.random_join_call(rng, api=api, max_rows=10)
         if api == 'overlap_join':
-            ts = sorted(rng.sample([1, 2, 3, 4], 2))
+            ts = sorted(rng.sample([1, 2, 3, 4, 1.5, 2.5, 0.5], 2))
         else:
             a, b = gen.random_threshold(rng), gen.random_threshold(rng)
             if a == b:
